@@ -30,6 +30,28 @@ CHECKS['C12'] = dict(
     note='Trusted: ASan red zones; my UTF encoder.',
     ref='5/C12')
 
+SHAPE_NOTE = 'Trusted: sanitizers; seginv.h predicates (public API only); hook H1/H3 counters; fontsynth compiler. Fuzzed fonts: only what the property quantifies over (fonts the library accepted).'
+CHECKS['C01'] = dict(engine='enum_face sweep + fz_face (libFuzzer)', level='fault_enumeration',
+    technique='fault enumeration (single-site boundary corruption sweep) + coverage-guided fuzzing with a table-aware mutator, sanitizer and borrow-ledger oracles',
+    text='Every byte/word of every table the engine reads in ~12 seed fonts is set to boundary values (exhaustive over that single-site space), the 722 historical '
+         'crashers are replayed, and fz_face explores multi-site corruptions; all face queries exercised on accepted faces under ASan/UBSan/LSan with a hang watchdog.',
+    note='Trusted: sanitizers, hook H2 for stage histograms. Multi-megabyte inputs and deep coordinated corruptions beyond what the fuzzer reaches are not explored.', ref='5/C01')
+CHECKS['C02'] = dict(engine='fz_shape (libFuzzer) + hypothesis/grdrv', technique='coverage-guided fuzzing + property-based testing of generated rule programs; sanitizers + H1 loop-bound counter + query-completeness oracle',
+    text='Accepted-but-odd fonts (fuzzed) and wild generated rule programs are shaped with generated texts in all encodings/directions; memory safety by sanitizers, '
+         'bounded work by the H1 iteration counter against the documented bound, growth cap, all queries complete. Exploration level.', note=SHAPE_NOTE, ref='5/C02')
+CHECKS['C03'] = dict(engine='fz_shape (libFuzzer) + hypothesis/grdrv', technique='coverage-guided fuzzing + property-based testing; structural invariant oracle over the public slot API',
+    text='Glyph-stream well-formedness predicates evaluated on every segment produced by fuzzed fonts, wild programs and shipped fonts. Exploration level.', note=SHAPE_NOTE, ref='5/C03-C05')
+CHECKS['C04'] = dict(engine='fz_shape (libFuzzer) + hypothesis/grdrv', technique='coverage-guided fuzzing + property-based testing; attachment-forest invariant oracle',
+    text='Forest / child-chain / base-chain predicates evaluated on every segment produced by fuzzed fonts, wild programs (attach chains, re-attachment, self/forward '
+         'attachment) and shipped fonts. Exploration level.', note=SHAPE_NOTE, ref='5/C03-C05')
+CHECKS['C05'] = dict(engine='fz_shape (libFuzzer) + hypothesis/grdrv', technique='coverage-guided fuzzing + property-based testing; association invariants + independent UTF reference decoder',
+    text='Character/slot association predicates and an independent UTF decoder evaluated on every segment; known finding KF1 recognised by hook H3 and excluded. Exploration level.',
+    note=SHAPE_NOTE, ref='5/C03-C05')
+CHECKS['C06'] = dict(engine='hypothesis/grdrv + gdlmodel', technique='model-based / differential property-based testing: generated GDL-lite programs compiled to fonts vs a reference interpreter',
+    text='Generated rule programs (matching, precedence, constraints, substitutions, insertions, deletions, associations, attributes, attachments, both directions) are '
+         'compiled to real font tables and the engine output is compared exactly with an independent reference interpreter. Exploration level inside the stated regime.',
+    note='Trusted: py/gdlmodel.py (reference) and py/fontsynth.py (compiler) -- separate code paths from the same rule value; regime restrictions listed in DESIGN 5/C06.', ref='5/C06')
+
 NOT_YET = {}
 
 def main():
